@@ -58,10 +58,10 @@ theorem invariant_preserved (q : T → Nat → T × Nat) (hq : QOK q) (v : T) (A
   obtain ⟨i1, hc, hl, x, hx, hs⟩ := modifyStep_sound q hq v A f p v' A' f' log h inv
   exact ⟨i1, applyLog_id log v' hc, hl, x, hx, getp_abs p v x hx, hs⟩
 
-/-- The full statement of C02 item 4 for the model: for EVERY path list (slices included) and every
-    update query (outputs or `empty`), `_modify` computes the defining reduction followed by the deferred
-    `delpaths`.  Not expressible in this model as it stands (no slice paths, no `empty` steps), hence a
-    comment-level statement: see `modify_refines_partial` for what is proved. -/
+/-- The part of C02 item 4 that the model can express: for every list of key/index paths and every
+    update query that yields an output at each of them, `_modify` started with an empty allocator
+    computes the defining reduction.  ⟦full⟧ C02.4 additionally quantifies over SLICE paths and over
+    queries that are `empty` at some paths (the deferred `delpaths`): outside the model, see the header. -/
 def modify_refines_statement : Prop :=
   ∀ (q : T → Nat → T × Nat) (qv : JV → JV), QOK q → (∀ x f, abs (q x f).1 = qv (abs x)) →
     ∀ (ps : List Path) (v : T) (f : Nat) (r : T × List Nat × Nat), (∀ j ∈ v.ids, j < f) →
@@ -85,6 +85,30 @@ theorem modify_refines_from_invariant (q : T → Nat → T × Nat) (qv : JV → 
     (r : T × List Nat × Nat) (inv : Inv A f v) (h : modifyAll q ps (v, A, f) = some r) :
     modifyV qv ps (abs v) = some (abs r.1) ∧ Inv r.2.1 r.2.2 r.1 :=
   ⟨(modifyAll_sound q qv hq habs ps v A f r inv h).1, (modifyAll_sound q qv hq habs ps v A f r inv h).2.1⟩
+
+/-! ### the assumption behind "fresh" labels -/
+
+/-- The model draws the label of a new container from a counter, so a new label never equals a
+    registered one.  Go addresses behave like that only while the registered container is LIVE.  The
+    statement that every registered label occurs in the current value: -/
+def owned_live_statement : Prop :=
+  ∀ (p : Path) (v n : T) (A : List Nat) (f : Nat) v' A' f' log,
+    upd A f p v n = some (v', A', f', log) → (∀ a ∈ A, a ∈ v.ids) → ∀ a ∈ A', a ∈ v'.ids
+
+/-- … is FALSE of the code as it stands: when an owned array outgrows its capacity, `updateArrayIndex`
+    allocates a new one (`c *= 2`) and leaves the old address registered (`updateArraySlice` does the same
+    when the length changes).  Witness: the owned one-element array in cell 5, index 1.  The dead array
+    can be collected and its address handed to a container built by the update query, which is then
+    updated in place although the query's output references it twice (found by the C05 re-run oracle:
+    key `rerun-differs:. as $n | [] | (.[range($n)][0,1,2,3,4], …`).  All theorems of this file are about
+    the model, in which labels are never reused: that no registered address is reused while the
+    allocator lives is an ASSUMPTION of the tie to the code (checks.d: `assumptions`). -/
+theorem owned_live_counterexample : ¬ owned_live_statement := by
+  intro h
+  have := h [.idx 1] (.node 5 false 1 [([], T.null)]) (.leaf (.bool true)) [5] 10
+    (.node 10 false 2 [([], T.null), ([], .leaf (.bool true))]) [10, 5] 11 [] rfl
+    (by simp [T.ids]) 5 (by simp)
+  simp [T.ids, idsK, T.null] at this
 
 /-! ### value-level algebra (C02 item 2) -/
 
